@@ -418,11 +418,18 @@ var nonceRe = regexp.MustCompile(`nonce-[0-9a-f]+`)
 // bigJSON: the next big failover uploads are JSON documents (the body inspector peeks into those)
 var bigJSON bool
 
+// bigNoFailover: the big upload is served by the first endpoint it reaches (nothing aborts it)
+var bigNoFailover bool
+
 func stackBigFailover(c *vlib.Cases, r *vlib.Rng, engine string, size int, chunked bool) {
 	a, b := stack.NewBackend("A"), stack.NewBackend("B")
 	defer a.Close()
 	defer b.Close()
-	atomic.StoreInt64(&a.AbortUploadAfter, int64(size/3+1))
+	if bigNoFailover {
+		a.Refuse() // B is the only endpoint that answers, and the first that is asked
+	} else {
+		atomic.StoreInt64(&a.AbortUploadAfter, int64(size/3+1))
+	}
 	b.KeepBodies = false
 	b.SetScript(func(_ int, s *stack.Seen) stack.Behaviour {
 		js, _ := json.Marshal(echo{Method: s.Method, Path: s.Path, Query: s.RawQuery, SHA: s.BodySHA, Len: s.BodyLen, Backend: "B"})
@@ -652,6 +659,14 @@ func main() {
 			c.Count("stack.bigfailover")
 		}
 		stackBigFailover(c, r, engine, 3<<20, true)
+		stackBigFailover(c, r, engine, 32<<20+1, true) // undeclared length, one byte past a power of two
+		stackBigFailover(c, r, engine, 8<<20+1, true)
+		// the same sizes with nothing going wrong on the way
+		bigNoFailover = true
+		stackBigFailover(c, r, engine, 32<<20+1, true)
+		stackBigFailover(c, r, engine, 8<<20+1, true)
+		stackBigFailover(c, r, engine, 16<<20+1, false)
+		bigNoFailover = false
 		// JSON documents above the inspector's 1 MiB window, declared and chunked: the replay after the failed upload is the
 		// whole document again
 		bigJSON = true
